@@ -444,14 +444,15 @@ class BzrGitMapping(foreign.VcsMapping):
             commit.gpgsig = rev.properties["git-gpg-signature"].encode(
                 "utf-8", "surrogateescape"
             )
-        if "git-missing-message" in rev.properties:
-            if commit.message != "":
+        missing_message = "git-missing-message" in rev.properties
+        if missing_message:
+            if rev.message != "":
                 raise AssertionError("git-missing-message set but message is not empty")
             commit.message = None
         else:
             commit.message = self._encode_commit_message(rev, rev.message, encoding)
-        if not isinstance(commit.message, bytes):
-            raise TypeError(commit.message)
+            if not isinstance(commit.message, bytes):
+                raise TypeError(commit.message)
         if metadata is not None:
             try:
                 mapping_registry.parse_revision_id(rev.revision_id)
@@ -476,7 +477,7 @@ class BzrGitMapping(foreign.VcsMapping):
                 commit.message = inject_bzr_metadata(commit.message, metadata, encoding)
             else:
                 raise NoPushSupport(None, None, self, revision_id=rev.revision_id)
-        if not isinstance(commit.message, bytes):
+        if not missing_message and not isinstance(commit.message, bytes):
             raise TypeError(commit.message)
         i = 0
         propname = "git-mergetag-0"
@@ -493,7 +494,11 @@ class BzrGitMapping(foreign.VcsMapping):
         except AttributeError:
             extra = commit.extra
         if "git-extra" in rev.properties:
-            for l in rev.properties["git-extra"].splitlines():
+            # One "<field> <value>" entry per LF-terminated line (not
+            # splitlines(), which also splits on FF, CR, U+2028, ...).
+            for l in rev.properties["git-extra"].split("\n"):
+                if not l:
+                    continue
                 (k, v) = l.split(" ", 1)
                 extra.append(
                     (
@@ -501,6 +506,12 @@ class BzrGitMapping(foreign.VcsMapping):
                         v.encode("utf-8", "surrogateescape"),
                     )
                 )
+        if missing_message:
+            # dulwich always writes the blank line that separates the headers
+            # from the message; a commit without a message does not have one.
+            raw = commit.as_raw_string()
+            if raw.endswith(b"\n\n"):
+                commit = Commit.from_string(raw[:-1])
         return commit
 
     def get_revision_id(self, commit):
